@@ -8,15 +8,17 @@ PROPS = {
             "quick": [{"harness": "openpaths", "args": ["--k", 6, "--nmax", 3, "--ko", 6, "--omax", 3, "--nopen", 1]},
                       {"harness": "openpaths", "args": ["--k", 4, "--nmax", 3, "--ko", 5, "--omax", 2, "--nopen", 2]},
                       {"harness": "openpaths", "args": ["--k", 5, "--nmax", 3, "--ko", 8, "--omax", 3, "--nopen", 1, "--oboard", "aligned"]},
-                      {"harness": "openpaths", "args": ["--k", 5, "--nmax", 3, "--ko", 6, "--omax", 3, "--nopen", 1, "--loops", 1]}],
+                      {"harness": "openpaths", "args": ["--k", 5, "--nmax", 3, "--ko", 6, "--omax", 3, "--nopen", 1, "--loops", 1]},
+                      {"harness": "openpaths", "args": ["--k", 5, "--nmax", 3, "--ko", 8, "--omax", 2, "--nopen", 1, "--oboard", "flat"]}],
             "thorough": [{"harness": "openpaths", "args": ["--k", 6, "--nmax", 4, "--ko", 6, "--omax", 3, "--nopen", 1]},
                          {"harness": "openpaths", "args": ["--k", 5, "--nmax", 3, "--ko", 6, "--omax", 4, "--nopen", 1]},
                          {"harness": "openpaths", "args": ["--k", 5, "--nmax", 3, "--ko", 6, "--omax", 2, "--nopen", 2]},
                          {"harness": "openpaths", "args": ["--k", 6, "--nmax", 4, "--ko", 8, "--omax", 3, "--nopen", 1, "--oboard", "aligned"]},
                          {"harness": "openpaths", "args": ["--k", 5, "--nmax", 3, "--ko", 8, "--omax", 2, "--nopen", 2, "--oboard", "aligned"]},
-                         {"harness": "openpaths", "args": ["--k", 6, "--nmax", 3, "--ko", 7, "--omax", 4, "--nopen", 1, "--loops", 1]}],
+                         {"harness": "openpaths", "args": ["--k", 6, "--nmax", 3, "--ko", 7, "--omax", 4, "--nopen", 1, "--loops", 1]},
+                         {"harness": "openpaths", "args": ["--k", 6, "--nmax", 4, "--ko", 8, "--omax", 3, "--nopen", 1, "--oboard", "flat"]}],
         },
-        "rule": "(three open boards: generic points; points sharing x or y so that open paths start, end and run horizontally/vertically; loops returning to their first point) every ordered tuple of 2..omax distinct points of the open board as open polyline (self-crossing included; one polyline, or every ordered pair of two polylines) x every subject polygon x every clip polygon of the closed boards, "
+        "rule": "(four open boards: generic points; points sharing x or y so that open paths start, end and run horizontally/vertically; loops returning to their first point; points far left and right of the closed paths at nearly equal heights, i.e. segments flatter than 1:100 that are not horizontal) every ordered tuple of 2..omax distinct points of the open board as open polyline (self-crossing included; one polyline, or every ordered pair of two polylines) x every subject polygon x every clip polygon of the closed boards, "
                 "all sets passing the exact general-position filter (closed and open paths together); x 4 clip types x 4 fill rules x paths/polytree execution; non-trivial = the reference cutter yields both kept and discarded pieces",
         "level_text": "Every input is executed on the real library and the open solution is compared with an exact reference cutter (rational cut parameters, exact winding at piece midpoints): pieces lie on the open subjects, cover exactly the expected parts, total length within 3 units per cut, closed solution region unchanged by the open subjects.",
         "assumptions": ["polylines of at most 4 vertices, at most two per input; closed paths of at most 4 vertices", "point-set clauses are evaluated at samples 0.5 units apart along segments (an alarm is always a concrete point)"],
